@@ -5,7 +5,7 @@ from pel import hexdump as hd
 from pel.peltool import peltool
 from io_drawer import dump as iod
 
-FUNCTIONS = ["pel.hexdump.hexdump", "pel.hexdump.parse", "peltool.printPELInHexFormat", "io_drawer.dump.HEX_DUMP_LINE_FORMATS"]
+FUNCTIONS = ["pel.hexdump.hexdump", "pel.hexdump.parse", "peltool.printPELInHexFormat", "io_drawer.dump.HEX_DUMP_LINE_FORMATS", "io_drawer.dump.parse_dump_file"]
 
 FILL = bytes((37 * i + 11) % 256 for i in range(16400))  # mixes printable / non-printable / hex letters
 
@@ -28,6 +28,8 @@ HARNESSES = [
      "timeout": {"quick": 90, "thorough": 300}},
     {"fn": "h_addr", "cases": ["default", "f0"], "timeout": {"quick": 90, "thorough": 300}},
     {"fn": "h_formats", "cases": FMT_CASES, "quick_cases": ["f1:L40:p20:w1:e4", "f0:L17:p16:w1:e2", "f1:L17:p16:w1:e1", "f0:L33:p32:w1:e0", "f1:L20:p19:w1:e3", "f1:L1:p0:w1:e0", "f0:L16:p15:w1:e0"],
+     "timeout": {"quick": 90, "thorough": 300}},
+    {"fn": "h_dumpfile", "cases": ["f0:L40:u1:c0:pre", "f1:L37:u0:c1:pre", "f0:L23:u0:c1", "f1:L40:u1:c0"], "quick_cases": ["f0:L40:u1:c0:pre", "f1:L37:u0:c1:pre"],
      "timeout": {"quick": 90, "thorough": 300}},
     {"fn": "h_hexdisplay", "cases": ["L17:p15", "L33:p0", "L40:p31"], "quick_cases": ["L17:p15"],
      "timeout": {"quick": 90, "thorough": 300}},
@@ -229,6 +231,16 @@ def h_formats() -> bool:
         return verdict(False, obs={"exception": repr(e)})
     ok = len(back) == L
     return verdict(sym_all([ok, bytes_eq(back, data) if ok else False]), obs={"lines": lines})
+
+
+def h_dumpfile() -> bool:
+    """
+    post: _
+    """
+    # a whole dump file (either format, comment / blank lines first) through io_drawer.dump.parse_dump_file gives the
+    # bytes it was rendered from: the body is C17's file harness
+    from harness import C17_dump
+    return C17_dump.file_body(CASE)
 
 
 def h_hexdisplay() -> bool:
